@@ -273,15 +273,23 @@ class CreateMultiTag:
         b = run.pick("block", idx(rng))
         if b is None or len(b.multi_tags) >= run.knobs["max_per"] or not b.data_arrays:
             return None
-        return {"op": "create_mtag", "blk": idx(rng), "name": gen_name(run, rng, names_of(b.multi_tags)),
-                "type": P.pick(rng, P.TYPES), "pos": idx(rng),
-                "ext": idx(rng) if rng.random() < 0.4 else None, "pv": gen_via(run, rng)}
+        o = {"op": "create_mtag", "blk": idx(rng), "name": gen_name(run, rng, names_of(b.multi_tags)),
+             "type": P.pick(rng, P.TYPES), "pos": idx(rng),
+             "ext": idx(rng) if rng.random() < 0.4 else None, "pv": gen_via(run, rng)}
+        if rng.random() < 0.2:
+            # plain values instead of arrays: the call creates "<name>-positions" / "<name>-extents" itself
+            n, k = rng.randint(1, 3), rng.randint(1, 2)
+            o["raw"] = {"pos": [[float(rng.randint(0, 4)) for _ in range(k)] for _ in range(n)],
+                        "ext": [[float(rng.randint(0, 2)) for _ in range(k)] for _ in range(n)] if rng.random() < 0.5 else None}
+        return o
 
     def do(self, run, o):
         b = run.pick("block", o["blk"])
         if b is None or not b.data_arrays:
             return res(NOOP)
         bh = run.R(b, o.get("pv", 0))
+        if o.get("raw"):
+            return self._do_raw(run, o, b, bh)
         pos = b.data_arrays[o["pos"] % len(b.data_arrays)]
         ext = None if o.get("ext") is None else b.data_arrays[o["ext"] % len(b.data_arrays)]
         ph = run.R(pos, 0)
@@ -295,6 +303,52 @@ class CreateMultiTag:
                               lambda: bh.create_multi_tag(o["name"], o["type"], ph, eh), mk, "create_mtag")
 
 
+def _create_mtag_raw(self, run, o, b, bh):
+    raw = o["raw"]
+    name = o["name"]
+    pname, ename = name + "-positions", name + "-extents"
+    taken = names_of(b.data_arrays)
+    if name in names_of(b.multi_tags) or pname in taken or (raw["ext"] is not None and ename in taken):
+        return res(NOOP)          # refusals of this call are C12 cells (helper_array_name_taken)
+    r = run.call(lambda: bh.create_multi_tag(name, o["type"], raw["pos"], raw["ext"]))
+    h = run.expect_ok(r, "create_mtag_raw")
+    if h.name != name:
+        run.violation("create_result", "create_mtag_raw", "name", "created %r got %r" % (name, h.name))
+    new = []
+    # (handles are taken from the block's own container, not through the multi-tag's links: a handle
+    # obtained through a link goes stale when that link is removed - known finding F14)
+    pr = run.call(lambda: bh.data_arrays[pname])
+    ph = run.expect_ok(pr, "create_mtag_raw")
+    lr = run.call(lambda: h.positions.id)
+    if lr[0] == "exc" or lr[1] != ph.id:
+        run.violation("create_result", "create_mtag_raw", "positions_link", "positions -> %r, array id %r" % (lr[1], ph.id))
+    pm = M.MArray(pname, o["type"] + "-positions", ph.id, b, np.array(raw["pos"], dtype=np.float64), "Auto")
+    b.data_arrays.append(pm)
+    run.remember(pm, ph)
+    new.append(pm.id)
+    em = None
+    if raw["ext"] is not None:
+        er = run.call(lambda: bh.data_arrays[ename])
+        eh = run.expect_ok(er, "create_mtag_raw")
+        lr = run.call(lambda: h.extents.id)
+        if lr[0] == "exc" or lr[1] != eh.id:
+            run.violation("create_result", "create_mtag_raw", "extents_link", "extents -> %r, array id %r" % (lr[1], eh.id))
+        em = M.MArray(ename, o["type"] + "-extents", eh.id, b, np.array(raw["ext"], dtype=np.float64), "Auto")
+        b.data_arrays.append(em)
+        run.remember(em, eh)
+        new.append(em.id)
+    t = M.MMultiTag(name, o["type"], h.id, b, pm)
+    t.extents = em
+    b.multi_tags.append(t)
+    run.remember(t, h)
+    new.append(t.id)
+    run.stats["create_mtag_from_values"] += 1
+    return res(OK, touch={b.id: "may"}, new=new, target=t)
+
+
+CreateMultiTag._do_raw = _create_mtag_raw
+
+
 @op("create_feature")
 class CreateFeature:
     def gen(self, run, rng):
@@ -306,7 +360,7 @@ class CreateFeature:
         if not t.parent_.data_arrays or len(t.features) >= 3:
             return None
         return {"op": "create_feature", "tag": i, "arr": idx(rng), "lt": P.pick(rng, P.LINK_TYPES),
-                "pv": gen_via(run, rng), "frame": rng.random() < 0.25}
+                "pv": gen_via(run, rng), "frame": rng.random() < 0.25, "as_str": rng.random() < 0.2}
 
     def do(self, run, o):
         t = run.pick("tagish", o["tag"])
@@ -319,7 +373,8 @@ class CreateFeature:
         a = arrs[o["arr"] % len(arrs)]
         th = run.R(t, o.get("pv", 0))
         ah = run.R(a, 0)
-        r = run.call(lambda: th.create_feature(ah, nixio.LinkType(o["lt"])))
+        lt = o["lt"].capitalize() if o.get("as_str") else nixio.LinkType(o["lt"])
+        r = run.call(lambda: th.create_feature(ah, lt))
         h = run.expect_ok(r, "create_feature")
         m = M.MFeature(h.id, o["lt"], a, t)
         t.features.append(m)
@@ -599,7 +654,10 @@ class SetAttr:
         v = gen[0](rng)
         if a == "type" and v is None:
             v = "t"
-        return {"op": "set_attr", "kind": k, "i": idx(rng), "attr": a, "val": v, "via": gen_via(run, rng)}
+        o = {"op": "set_attr", "kind": k, "i": idx(rng), "attr": a, "val": v, "via": gen_via(run, rng)}
+        if a == "link_type" and rng.random() < 0.3:
+            o["as_str"] = True          # the link type given as text ("Tagged")
+        return o
 
     def do(self, run, o):
         k, a = o["kind"], o["attr"]
@@ -617,7 +675,7 @@ class SetAttr:
         v = o["val"]
         rv = v
         if a == "link_type":
-            rv = nixio.LinkType(v)
+            rv = v.capitalize() if o.get("as_str") else nixio.LinkType(v)
         r = run.call(lambda: setattr(h, a, rv))
         run.expect_ok(r, "set_" + a)
         setattr(m, ent[3], ent[1](v))
@@ -870,7 +928,11 @@ class SetSectionLink:
     def gen(self, run, rng):
         if len(run.enum("section")) < 2:
             return None
-        return {"op": "set_section_link", "s": idx(rng), "t": idx(rng), "via": gen_via(run, rng), "tv": gen_via(run, rng)}
+        how = "obj"
+        if not run.profile.masked("section_link_none_or_id"):
+            how = P.pick(rng, ["obj", "obj", "id", "none"])
+        return {"op": "set_section_link", "s": idx(rng), "t": idx(rng), "via": gen_via(run, rng), "tv": gen_via(run, rng),
+                "how": how}
 
     def do(self, run, o):
         secs = run.enum("section")
@@ -878,6 +940,17 @@ class SetSectionLink:
             return res(NOOP)
         sm = secs[o["s"] % len(secs)]
         tm = secs[o["t"] % len(secs)]
+        how = o.get("how", "obj")
+        if how == "none":
+            # documented: "optional read-write property and may be set to None" (clears the link)
+            sh = run.R(sm, o.get("via", 0))
+            had = sm.link is not None
+            run.expect_ok(run.call(lambda: setattr(sh, "link", None)), "set_section_link:none" + (":linked" if had else ":unlinked"))
+            sm.link = None
+            if had:
+                run.link_path_changed()
+            run.stats["section_link_cleared" if had else "section_link_cleared_absent"] += 1
+            return res(OK, touch={sm.id: "may"}, target=sm)
         if tm is sm:
             return res(NOOP)
         # no link cycles: Section.inherited_properties() follows links recursively without a guard
@@ -889,7 +962,11 @@ class SetSectionLink:
             x, hops = x.link, hops + 1
         sh = run.R(sm, o.get("via", 0))
         th = run.R(tm, o.get("tv", 0))
-        run.expect_ok(run.call(lambda: setattr(sh, "link", th)), "set_section_link")
+        if how == "id":
+            run.expect_ok(run.call(lambda: setattr(sh, "link", th.id)), "set_section_link:id")
+            run.stats["section_link_by_id"] += 1
+        else:
+            run.expect_ok(run.call(lambda: setattr(sh, "link", th)), "set_section_link")
         sm.link = tm
         run.link_path_changed()
         run.stats["section_links"] += 1
@@ -1345,6 +1422,14 @@ def observe_all_paths(run, m, site, oracle="alias_view"):
         if d is not None:
             run.violation(oracle, site, "%s:%s:%s" % (m.kind, label.split(":")[0], K.diff_class(d)),
                           "through %s at %s: real=%s model=%s" % (label, d[0], d[1], d[2]))
+    # "the original entity itself": every path's handle equals (==, !=, hash) the directly fetched one
+    base = handles[0][1]
+    if hasattr(type(base), "id"):
+        for label, h in handles[1:]:
+            r = run.call(lambda: (bool(h == base), bool(h != base), hash(h) == hash(base), bool(h == "not an entity")))
+            if r[0] == "exc" or r[1] != (True, False, True, False):
+                run.violation(oracle, site, "%s:%s:identity" % (m.kind, label.split(":")[0]),
+                              "through %s: (==, !=, same hash, == str) -> %r" % (label, r[1]))
     run.stats["alias_observations"] += len(handles)
 
 
